@@ -66,6 +66,7 @@ func acquireDirectoryLock(dirPath string, pidFileName string, readOnly bool) (
 			return nil, y.Wrapf(err,
 				"Cannot write pid file %q", absPidFilePath)
 		}
+		vevent(12, absPidFilePath, 0, 0) // verif: lock
 	}
 	return &directoryLockGuard{f, absPidFilePath, readOnly}, nil
 }
@@ -76,6 +77,7 @@ func (guard *directoryLockGuard) release() error {
 	if !guard.readOnly {
 		// It's important that we remove the pid file first.
 		err = os.Remove(guard.path)
+		vevent(7, guard.path, 0, 0) // verif: remove
 	}
 
 	if closeErr := guard.f.Close(); err == nil {
